@@ -124,7 +124,11 @@ type c11Step struct {
 }
 
 // spelling modes for indexes / keys
-var c11Modes = []string{"lit", "var", "expr", "adv"}
+var c11Modes = []string{"lit", "var", "expr", "adv", "lenroot"}
+
+// c11RootLen: for the "lenroot" spelling an index i is written len(ROOT) / 2 when that equals i
+// (an index expression that mentions the root variable: it must still mean the root inside the tail).
+var c11RootLen = map[string]int{"Nodes": 2, "Kids": 2, "Leaves": 2, "Mixed": 4}
 
 func (s c11Step) spell(mode string) string {
 	switch s.kind {
@@ -314,7 +318,7 @@ func init() {
 			return s
 		},
 		Run:  c11Run,
-		Rule: "data graph of depth 3 from a struct/map/slice/pointer type family (repeated field names at several depths, prefix names Kids/KidsX, value- and pointer-receiver methods returning leaves/structs/slices, every leaf string spelling its own Go path); from 8 roots (struct value, pointer, slices and a leaf under names that are also field names, a map, a []interface{} of different struct types holding the same field names at different positions) every walk of the type graph of <=L steps (field, index, map key, method call) ending at a string leaf, with indexes/keys spelled as literals, variables, i+0 expressions and variables named like fields; each used in an output tag, through let, and (for walks through a slice) as loop iterable with the tail applied to the loop variable. Expected value = Go navigation by reflection. Every walk prefix is also extended by one uncompletable step (missing key, nil pointer then member/method, index 9 / -1 via variable, unknown field/method, unexported field), alone and followed by a further .Field / .Field[0] / .Method() continuation. Oracle: completable => exactly the leaf, or an error; never another value, never empty without error. Uncompletable => error or empty output, never a leaf, never a panic. Non-trivial: walks with >=2 steps.",
+		Rule: "data graph of depth 3 from a struct/map/slice/pointer type family (repeated field names at several depths, prefix names Kids/KidsX, value- and pointer-receiver methods returning leaves/structs/slices, every leaf string spelling its own Go path); from 8 roots (struct value, pointer, slices and a leaf under names that are also field names, a map, a []interface{} of different struct types holding the same field names at different positions) every walk of the type graph of <=L steps (field, index, map key, method call) ending at a string leaf, with indexes/keys spelled as literals, variables, i+0 expressions, variables named like fields and expressions that mention the root variable (len(ROOT) / 2); each used in an output tag, through let, and (for walks through a slice) as loop iterable with the tail applied to the loop variable. Expected value = Go navigation by reflection. Every walk prefix is also extended by one uncompletable step (missing key, nil pointer then member/method, index 9 / -1 via variable, unknown field/method, unexported field), alone and followed by a further .Field / .Field[0] / .Method() continuation. Oracle: completable => exactly the leaf, or an error; never another value, never empty without error. Uncompletable => error or empty output, never a leaf, never a panic. Non-trivial: walks with >=2 steps.",
 		Bound: func(th bool) string {
 			if th {
 				return "walk length <=7"
@@ -387,6 +391,14 @@ func c11Path(rs c11RootSpec, steps []c11Step, mode string) string {
 	var sb strings.Builder
 	sb.WriteString(rs.name)
 	for _, s := range steps {
+		if mode == "lenroot" {
+			if n, ok := c11RootLen[rs.name]; ok && s.kind == "index" && s.idx == n/2 {
+				sb.WriteString("[len(" + rs.name + ") / 2]")
+				continue
+			}
+			sb.WriteString(s.spell("lit"))
+			continue
+		}
 		sb.WriteString(s.spell(mode))
 	}
 	return sb.String()
